@@ -441,6 +441,7 @@ func runC09(cfg Config) {
 	c09SameHandle(cfg, rep, rng, monitor)
 	runC09Handle(cfg, rep, m, rng, monitor)
 	c09CLI(cfg, rep, rng)
+	runMountFS09(cfg, rep, m, rng)
 	rep.Write(cfg.Out)
 }
 
